@@ -11,7 +11,7 @@ let rsurf () = let pts = r1 rvec in let n = rvec () in (pts, n)
 
 let () =
   (* n_in n_out -> 9 floats, row major *)
-  register "q_rot" (fun cmd ->
+  register "q_vis_rot" (fun cmd ->
        let n_in = rvec () in let n_out = rvec () in
        start cmd; pmat (rotation_matrix fops n_in n_out); finish ());
   (* n_in -> 9 floats (default n_out = +z) *)
@@ -44,7 +44,7 @@ let () =
        let segs = r1 (fun () -> let p = rvec () in let q = rvec () in (p, q)) in
        start cmd; List.iter (fun (p, q) -> pb (basic_visibility fops eps eta p q s)) segs; finish ());
   (* eps eta centers surfaces -> n*n bools (while-loop model) then n*n bools (forallb form) *)
-  register "q_p2p" (fun cmd ->
+  register "q_vis_p2p" (fun cmd ->
        let eps = rflt () in let eta = rflt () in
        let centers = r1 rvec in
        let surfs = r1 rsurf in
